@@ -662,7 +662,7 @@ Proof. destruct fuel; [discriminate|]. cbn. intros H. inversion H. reflexivity. 
 
 Lemma write_rec_app a : forall b f ms,
   write_rec f (a ++ b) = Ok ms ->
-  exists ma mb, write_rec f a = Ok ma /\ write_rec (f - length a) b = Ok mb /\ ms = ma ++ mb.
+  exists ma mb, write_rec f a = Ok ma /\ write_rec (f - List.length a) b = Ok mb /\ ms = ma ++ mb.
 Proof.
   induction a as [|[k v] a IH]; intros b f ms H.
   - cbn [app length] in *. rewrite Nat.sub_0_r. exists [], ms. repeat split; [|exact H].
@@ -727,4 +727,117 @@ Proof.
   - apply bind_ok in H as (m & Hm & H). inversion H. exists m. split; [exact Hm|reflexivity].
   - destruct (unusable_name k); [discriminate|].
     apply bind_ok in H as (m & Hm & H). inversion H. exists m. split; [exact Hm|reflexivity].
+Qed.
+
+(* ================================================================================================ *)
+(* (L3) write produces exactly the reference layout                                                 *)
+(* ================================================================================================ *)
+
+(* the dictionary form of a leaf: fields, then the type tag, then the class-specific entry *)
+Definition dict_extra (k : kind) (tin tout : ty) : list (string * pval) :=
+  match k with
+  | KInput => [("shape", ty_get "input" tin)]
+  | KOutput => [("shape", ty_get "output" tout)]
+  | KFlatten => [("input_type", ty_get "input" tin)]
+  | _ => []
+  end.
+
+Lemma to_dict_leaf_form k fs tin tout :
+  to_dict (Leaf k fs tin tout) = fs ++ ("type", VStr (kind_name k)) :: dict_extra k tin tout.
+Proof. destruct k; cbn [to_dict dict_extra]; rewrite <- ?app_assoc; reflexivity. Qed.
+
+Lemma plain_ty_get key t : plain (ty_get key t).
+Proof.
+  unfold ty_get. destruct t as [d|]; [|exact I]. destruct (assoc key d) as [v|]; [|exact I].
+  destruct v; exact I.
+Qed.
+
+Lemma write_extra f k tin tout mex :
+  write_rec f (dict_extra k tin tout) = Ok mex -> enc_extra k tin tout = Ok mex.
+Proof.
+  intros H. destruct k; cbn [dict_extra enc_extra] in *;
+    try (apply write_rec_nil_inv in H; subst; reflexivity).
+  all: apply write_rec_cons_inv in H as (f' & here & rest & _ & _ & Hh & Hr & ->);
+       apply write_rec_nil_inv in Hr; subst rest;
+       apply wentry_plain in Hh as (y & Hy & ->); [|discriminate|apply plain_ty_get];
+       rewrite Hy; reflexivity.
+Qed.
+
+Lemma In_assoc_NoDup {A} (l : list (string * A)) k v :
+  NoDup (keys l) -> In (k, v) l -> assoc k l = Some v.
+Proof.
+  unfold keys. induction l as [|[k0 v0] r IH]; intros Hnd Hin; [destruct Hin|].
+  cbn [map fst] in Hnd. inversion Hnd as [|? ? Hnot Hnd']; subst. cbn [assoc].
+  destruct Hin as [E|Hin].
+  - inversion E; subst. rewrite String.eqb_refl. reflexivity.
+  - destruct (String.eqb k k0) eqn:E.
+    + apply String.eqb_eq in E. subst k0. exfalso. apply Hnot.
+      apply in_map_iff. exists (k, v). split; [reflexivity|exact Hin].
+    + apply IH; assumption.
+Qed.
+
+(* looking the documented parameters up by name = walking the stored fields in order *)
+Lemma mapM_params fs l :
+  (forall k v, In (k, v) l -> assoc k fs = Some v) ->
+  mapM (enc_param fs) (keys l) = enc_members l.
+Proof.
+  unfold keys. induction l as [|[k v] r IH]; intros H; [reflexivity|].
+  cbn [map fst mapM]. rewrite enc_members_cons. unfold enc_param at 1.
+  rewrite (H k v) by (left; reflexivity).
+  destruct (enc_value v) as [y|e]; cbn [bind]; [|reflexivity].
+  rewrite IH by (intros k' v' Hin; apply H; right; exact Hin). reflexivity.
+Qed.
+
+Lemma keys_app {A} (a b : list (string * A)) : keys (a ++ b) = keys a ++ keys b.
+Proof. unfold keys. apply map_app. Qed.
+
+(* a leaf whose stored fields are exactly the documented parameters followed by "metadata" *)
+Definition leaf_ok (k : kind) (fs : list (string * pval)) : Prop :=
+  keys fs = doc_params k ++ ["metadata"] /\ Forall (fun p => plain (snd p)) fs.
+
+Theorem write_is_reference_layout_leaf : forall fuel k fs tin tout ms,
+  leaf_ok k fs ->
+  write_rec fuel (to_dict (Leaf k fs tin tout)) = Ok ms ->
+  exists ref, encode_ref (Leaf k fs tin tout) = Ok ref /\ Permutation ms ref.
+Proof.
+  intros fuel k fs tin tout ms [Hkeys Hplain] H.
+  pose proof (doc_params_NoDup k) as Hnd. rewrite <- Hkeys in Hnd.
+  (* split the fields *)
+  unfold keys in Hkeys. apply map_eq_app in Hkeys as (fs0 & tl & Hfs & Hk0 & Htl).
+  apply map_eq_cons in Htl as ([mk m] & tl' & -> & Hmk & Htl'). cbn [fst] in Hmk. subst mk.
+  apply map_eq_nil in Htl'. subst tl'.
+  assert (Hlook : forall p v, In (p, v) fs -> assoc p fs = Some v).
+  { intros p v Hin. apply In_assoc_NoDup; assumption. }
+  assert (Hfs0 : plain_entries fs0).
+  { apply Forall_forall. intros [p v] Hin. cbn [fst snd]. split.
+    - intros ->. subst fs. rewrite keys_app in Hnd. cbn in Hnd.
+      apply NoDup_remove_2 in Hnd. apply Hnd. rewrite app_nil_r.
+      apply in_map_iff. exists ("metadata", v). split; [reflexivity|exact Hin].
+    - rewrite Forall_forall in Hplain. apply (Hplain (p, v)). subst fs. apply in_or_app. left. exact Hin. }
+  assert (Hm : plain m).
+  { rewrite Forall_forall in Hplain. apply (Hplain ("metadata", m)). subst fs. apply in_or_app. right. left. reflexivity. }
+  (* walk the dictionary *)
+  rewrite to_dict_leaf_form in H. rewrite Hfs in H. rewrite <- app_assoc in H.
+  apply write_rec_app in H as (ma & mb & Ha & Hb & ->).
+  cbn [app] in Hb.
+  apply write_rec_cons_inv in Hb as (f1 & hmeta & r1 & _ & _ & Hmeta & Hr1 & ->).
+  apply write_rec_cons_inv in Hr1 as (f2 & htype & r2 & _ & _ & Htype & Hr2 & ->).
+  apply (write_rec_plain _ _ _) in Ha; [|exact Hfs0].
+  apply wentry_meta in Hmeta; [|exact Hm].
+  apply wentry_plain in Htype as (y & Hy & ->); [|discriminate|exact I].
+  cbn [enc_value] in Hy. inversion Hy; subst y. clear Hy.
+  apply write_extra in Hr2.
+  (* the reference *)
+  cbn [encode_ref]. rewrite <- Hk0.
+  change (map fst fs0) with (keys fs0).
+  rewrite (mapM_params fs fs0), Ha.
+  2: { intros p v Hin. apply Hlook. subst fs. apply in_or_app. left. exact Hin. }
+  cbn [bind]. rewrite Hr2. cbn [bind].
+  rewrite (Hlook "metadata" m) by (subst fs; apply in_or_app; right; left; reflexivity).
+  rewrite Hmeta. cbn [bind]. eexists. split; [reflexivity|].
+  (* same members *)
+  cbn [app]. apply Permutation_sym.
+  replace (ma ++ hmeta ++ ("type", H5Str "vlen-utf-8" (kind_name k)) :: r2)
+    with ((ma ++ hmeta) ++ ("type", H5Str "vlen-utf-8" (kind_name k)) :: r2) by (rewrite <- app_assoc; reflexivity).
+  apply Permutation_cons_app. rewrite <- app_assoc. apply Permutation_app_head. apply Permutation_app_comm.
 Qed.
